@@ -71,6 +71,11 @@ def rule_text(sections, pattern="zzzzzz", extra=None):
 
 
 def judge(ctx, ws, blob, sections, origin, exec_names, all_names, extra=None):
+    with ctx.ambient_log():
+        return _judge(ctx, ws, blob, sections, origin, exec_names, all_names, extra)
+
+
+def _judge(ctx, ws, blob, sections, origin, exec_names, all_names, extra=None):
     """extra: further config keys (style, valid_addr_range, flags) given identically to both routes."""
     op = ws.write("o.bin", blob)
     rc_full, full, _ = objd.disassemble(op)
